@@ -78,13 +78,13 @@ func refFrame(tp *pack.TextPack, lic string) []byte {
 var textLens = []int{0, 1, 7, 30, 100, 252, 253, 254, 255, 256, 1000, 4000}
 var licenses = []string{"", "", "", "lic-A", "x", "라이선스-β", "0123456789abcdef0123456789abcdef"}
 
-// genPack builds the pack of send (sender, seq): identity is carried in Time,
-// Oid and the first text record so that every frame of a scenario is distinct.
-func genPack(r *vh.Rng, sender, seq int, big int) (*pack.TextPack, int64) {
+// genPack builds the pack of send (sender, seq): identity is carried in Time
+// and the first text record so that every frame of a scenario is distinct.
+func genPack(r *vh.Rng, nonce int32, sender, seq int, big int) (*pack.TextPack, int64) {
 	tp := pack.NewTextPack()
 	pcode := []int64{0, 1, 127, 128, 12345, -1, 1 << 40, -(1 << 62)}[r.Intn(8)]
 	tp.SetPCODE(pcode)
-	tp.SetOID(int32(sender*1000003 + seq))
+	tp.SetOID(nonce) // per-run nonce: a frame with another Oid comes from a foreign client
 	tp.SetTime(int64(sender)<<32 | int64(seq))
 	if r.Chance(20) {
 		tp.SetOKIND(int32(r.Intn(5)))
